@@ -104,7 +104,7 @@ class ASPath(Attribute):
             seg_type = segment[0]
             as_path_list = segment[1]
             if seg_type not in [cls.AS_SET, cls.AS_SEQUENCE, cls.AS_CONFED_SET, cls.AS_CONFED_SEQUENCE]:
-                assert excep.UpdateMessageError(
+                raise excep.UpdateMessageError(
                     sub_error=bgp_cons.ERR_MSG_UPDATE_MALFORMED_ASPATH,
                     data='')
 
